@@ -6,9 +6,8 @@
             PSequence([items], repeats) - items scalars or patterns of the fragment, repeats a scalar;
             PRound(input, *args, **kwargs) - input, arguments and keyword arguments scalars or patterns of the fragment;
             PDict({k: v}) - values scalars or patterns of the fragment;
-            PArrayIndex([items], i) with a scalar index i (items scalars or patterns of the fragment), and
-            PArrayIndex([scalars], index) with index a scalar or a pattern of the fragment.
-   Not in it, and NOT sticky (C09_more_arrayindex_revives): PArrayIndex([patterns], pattern index).
+            PArrayIndex([items], index) - items and index scalars or patterns of the fragment (every PArrayIndex is sticky
+            since the repair C09-parrayindex-revives: the object stays exhausted once its __next__ has raised StopIteration).
    quiet f2 p': no later next() returns a value, at ANY fuel f2 of the model; binop arbitrary but never StopIteration. *)
 From Isobar Require Import Base.Prelude Pat.Val Pat.Syntax Pat.Step Pat.StepProofs Pat.IterProofs Pat.StickyProofs Pat.StickyProofs2.
 From Coq Require Import String QArith.
@@ -54,8 +53,7 @@ Ltac gm :=
   | |- Forall _ (_ :: _) => constructor; [gm|gm]
   | |- gpat (PSequence (AL _) (AV _) _ _) => apply GP_seq; gm
   | |- gpat (PSeries _ _ _ _ _) => apply GP_counter; reflexivity
-  | |- gpat (PArrayIndex (AL _) (AV _)) => apply GP_arrayindex_fixed; gm
-  | |- gpat (PArrayIndex (AL _) _) => apply GP_arrayindex_scalars; [reflexivity|gm]
+  | |- gpat (PArrayIndex (AL _) _ _) => apply GP_arrayindex_list; gm
   | |- gpat (PMap _ _ _ _) => apply GP_map; gm
   | |- gpat (PDict _) => apply GP_dict; gm
   | |- gpat (PBinOp _ _ _) => apply GP_binop; gm
@@ -67,8 +65,8 @@ Ltac gm :=
 Definition ex_seq : pat := PSequence (AL [AP (seq_ [1] 1); AV (VInt 5)]) (AV (VInt 3)) 0 0.
 Definition ex_round : pat := PMap (AP (ser 1 9)) FRound [AP (seq_ [0] 2)] [].
 Definition ex_dict : pat := PDict (AD [("a"%string, AP (seq_ [1; 2] 1)); ("b"%string, AP (ser 0 9))]).
-Definition ex_ai_fixed : pat := PArrayIndex (AL [AP (seq_ [4; 5] 1); AV (VInt 9)]) (AV (VInt 0)).
-Definition ex_ai_scalars : pat := PArrayIndex (AL [AV (VInt 7); AV (VInt 8)]) (AP (seq_ [0; 1; 1] 1)).
+Definition ex_ai_fixed : pat := PArrayIndex (AL [AP (seq_ [4; 5] 1); AV (VInt 9)]) (AV (VInt 0)) false.
+Definition ex_ai_scalars : pat := PArrayIndex (AL [AV (VInt 7); AV (VInt 8)]) (AP (seq_ [0; 1; 1] 1)) false.
 Definition ex_sum : pat := PBinOp OAdd (AP ex_seq) (AP (PMap (AP (ser 1 9)) FRound [AP (seq_ [0] 5)] [])).
 
 Example C09_more_nonvacuous :
@@ -97,14 +95,25 @@ Proof.
     destruct (step Val.binop 100 30 p2) as [o q]. cbn [fst snd] in *. subst o. reflexivity.
 Qed.
 
-(* WHERE THE FULL STATEMENT IS FALSE: PArrayIndex over a literal list with pattern items AND a pattern index.  The item that
-   has ended raises StopIteration, the next index value selects an item that is still alive: 1, StopIteration, 5, 6.  The
-   implementation does the same (PArrayIndex([PSequence([1],1), PSequence([5,6,7],1)], PSequence([0,0,1,1],1)) gives
-   1, StopIteration, 5, 6, StopIteration, ...): model and code agree.  Nothing in the documented purpose of the class needs
-   this; it is a violation of C09, the KNOWN FINDING C09-parrayindex-revives (known_findings.d/C09.json,
-   findings/C09-parrayindex-revives.md with the proposed repair - a flag, i.e. a new field of the model's constructor); the
-   PArrayIndex stratum of harness/c09.py generates such objects and reports it as known.  They are outside gpat. *)
-Definition ex_revives : pat := PArrayIndex (AL [AP (seq_ [1] 1); AP (seq_ [5; 6; 7] 1)]) (AP (seq_ [0; 0; 1; 1] 1)).
-Example C09_more_arrayindex_revives :
-  fst (outputs Val.binop 100 30 6 ex_revives) = [Yield (VInt 1); Stop; Yield (VInt 5); Yield (VInt 6); Stop; Stop].
-Proof. vm_compute. reflexivity. Qed.
+(* EVERY PArrayIndex IS STICKY.  Before the repair C09-parrayindex-revives (findings/C09-parrayindex-revives.diff) PArrayIndex over a
+   literal list with pattern items AND a pattern index yielded values again after a StopIteration: the item that had ended
+   raised StopIteration, the next index value selected an item that was still alive (1, StopIteration, 5, 6).  The object now
+   carries an `exhausted` flag (field of the model's constructor) set when __next__ raises StopIteration and cleared by reset();
+   whatever its list and index are - no hypothesis on them at all - a StopIteration is final. *)
+Theorem C09_more_arrayindex_sticky : forall binop LMAX f list index e p',
+  step binop LMAX f (PArrayIndex list index e) = (Stop, p') ->
+  (exists l' i', p' = PArrayIndex l' i' true) /\ forall f2, quiet binop LMAX f2 p'.
+Proof.
+  intros binop LMAX f list index e p' H. destruct (arrayindex_stop binop LMAX _ _ _ _ _ H) as [l' [i' ->]].
+  split; [eauto|]. apply arrayindex_exhausted_quiet.
+Qed.
+Print Assumptions C09_more_arrayindex_sticky.
+
+Definition ex_revives : pat := PArrayIndex (AL [AP (seq_ [1] 1); AP (seq_ [5; 6; 7] 1)]) (AP (seq_ [0; 0; 1; 1] 1)) false.
+Example C09_more_arrayindex_stays_exhausted :
+  gpat ex_revives /\
+  fst (outputs Val.binop 100 30 6 ex_revives) = [Yield (VInt 1); Stop; Stop; Stop; Stop; Stop] /\
+  reset Val.binop 100 30 (snd (outputs Val.binop 100 30 6 ex_revives)) = Yield ex_revives.
+Proof.
+  split; [unfold ex_revives, seq_; cbn [map]; gm|]. split; vm_compute; reflexivity.
+Qed.
